@@ -343,7 +343,21 @@ class GenericTranspiler(object):
     origin_info.resolve_entity(node, source, fn)
 
     namespace = inspect_utils.getnamespace(fn)
-    namer = naming.Namer(namespace)
+    # Generated symbols must not collide with any identifier that occurs in the
+    # function, including names that are only assigned or only declared as
+    # parameters (the converters reserve just the names that are read).
+    reserved_names = dict(namespace)
+    for n in ast.walk(node):
+      if isinstance(n, ast.Name):
+        reserved_names.setdefault(n.id, None)
+      elif isinstance(n, ast.arg):
+        reserved_names.setdefault(n.arg, None)
+      elif isinstance(n, (ast.FunctionDef, ast.AsyncFunctionDef, ast.ClassDef)):
+        reserved_names.setdefault(n.name, None)
+      elif isinstance(n, (ast.Global, ast.Nonlocal)):
+        for name in n.names:
+          reserved_names.setdefault(name, None)
+    namer = naming.Namer(reserved_names)
     new_name = namer.new_symbol(self.get_transformed_name(node), ())
     entity_info = transformer.EntityInfo(
         name=new_name,
